@@ -22,3 +22,6 @@ func All() []*G {
 }
 
 func Extra() []*G { return nil }
+
+// ExtraLarge: see groups_default.go.
+func ExtraLarge() []*G { return nil }
